@@ -39,9 +39,7 @@ def run(tier):
                      else "invoke %s n1" % s if r < 0.75 else "fnaddr %s n1" % s)
         lines += h
         expected += [None] * len(h)
-    drvs = vp.build_many([("sbx_vm", ["sbx_driver.cpp"], ["-DBK_VM"]), ("sig_driver", ["sig_driver.cpp"], ["-DVM_MAX_FUNCS=64"]),
-                          ("sig_driver_lp16", ["sig_driver.cpp"], ["-DVM_MAX_FUNCS=64", "-DABI_LP16"]),
-                          ("sig_driver_lp64u", ["sig_driver.cpp"], ["-DVM_MAX_FUNCS=64", "-DABI_LP64U"])])
+    drvs = vp.build_many([("sbx_vm", ["sbx_driver.cpp"], ["-DBK_VM"])])
     events, tpath = sx.replay(drvs["sbx_vm"], wd, "vm", lines)
     for b in sx.validate(chk, "Trace_Sbx", tpath, events, lines, "lookup-vm"):
         chk.violation("[lookup, vm backend] event %d outside the C11 Contract: %s" % (b["index"], b["event"]),
@@ -57,28 +55,15 @@ def run(tier):
         chk.violation("[lookup, dylib backend] event %d outside the C11 Contract: %s" % (b["index"], b["event"]),
                       {"walk": b["walk"], "event": b["event"]})
     n_eval += len(devents)
-    # (a) signature family
-    spath = os.path.join(wd, "sig.ndjson")
-    sev = []
-    for abi in ("wasm32", "lp16", "lp64u"):
-        apath = os.path.join(wd, "sig_%s.ndjson" % abi)
-        p = vp.run([drvs["sig_driver" + ("" if abi == "wasm32" else "_" + abi)], apath, str(vp.seed())], timeout=600)
-        if p.returncode != 0:
-            raise vp.Broken("sig_driver(%s) rc=%d %s" % (abi, p.returncode, p.stderr[-300:]))
-        for e in vp.read_ndjson(apath):
-            e["abi"] = abi
-            sev.append(e)
-    vp.write_ndjson(spath, sev)
-    r = vp.tlc(os.path.join(vp.SPEC, "Trace_Invoke.tla"), os.path.join(vp.SPEC, "Trace_Invoke.cfg"), workers=1,
-               timeout=600, env={"TRACE": spath})
-    res = r.printed("RESULT")
-    if len(res) != 1 or res[0]["n"] != len(sev):
-        raise vp.Broken("Trace_Invoke did not complete: " + r.out[-1200:])
-    chk.add_tlc("Trace_Invoke", r, "constant-level evaluation of CallAllowed on %d recorded calls" % len(sev))
-    for b in res[0]["bad"]:
-        chk.violation("call outside the C11 Contract: %s" % str(sev[b - 1])[:600], sev[b - 1])
-    n_eval += len(sev)
-    chk.sample(sev[5])
+    # (a) signature family: hand-listed + generated from spec/Sig.tla, three guest ABIs
+    import sigcommon as sg
+    sev, spath, ngen, sig_edges = sg.run(chk, wd, thorough)
+    badcalls, ncalls = sg.judge(chk, spath, sev, "call", "CallAllowed")
+    for ev in badcalls:
+        chk.violation("call outside the C11 Contract: %s" % str(ev)[:600], ev)
+    n_eval += ncalls
+    chk.cov["signatures"] = {"hand_listed": 18, "generated": ngen, "sig_machine_edges": len(sig_edges)}
+    chk.sample([e for e in sev if e["e"] == "call"][5])
     # (c) trees on instances bound to different libraries
     t_vm = cc.trees(chk, wd, "vm", 3, 2, 5 if thorough else 4, False, True)
     t_nat = cc.trees(chk, wd, "native", 3, 2, 5 if thorough else 4, True, False)
@@ -107,7 +92,9 @@ def run(tier):
               traces=ntrees + 1 + sum(1 for e in events if e["e"] == "reset"))
     chk.cov["exhaustive"] = True
     chk.cov["exhaustive_scope"] = "every edge of the bounded lookup model (2 instances x 2 libraries x incarnations); " \
-                                  "signature family of 18 signatures x one-at-a-time boundary values x 3 wrapper forms x 3 guest ABIs; all " \
+                                  "signature family (18 hand-listed + generated from the parameter-list machine of Sig.tla: every parameter " \
+                                  "kind at every position, thorough: after every kind) x one-at-a-time boundary values x 3 wrapper " \
+                                  "forms x 3 guest ABIs; all " \
                                   "call trees within bounds on instances of different libraries (vm, dylib)"
     chk.assumptions += ["flag-abort build for the signature family: 'aborts before the call' is observed in the exception-"
                         "mode tree runs (poisoned argument: guest body must not start)",
